@@ -27,6 +27,13 @@ CLAIMED["C17"] = (
     "DESIGN.md section 5 / C17",
 )
 
+CLAIMED["C18"] = (
+    "panic classifier (runtime.Error vs diagnostic) over isolated calls of analysis and all generators on synthesised programs, process aborts attributed by BEGIN log",
+    "Every synthesised program (supported families in unusual legal spellings: one-letter names, short package names, multi-name constants, generic instantiations with basic arguments; and unsupported forms x positions) goes through NewAnalysisFromFile and the seven targets, each call under recover() in a worker process; a recovered runtime.Error or a process abort (stack exhaustion made deterministic with SetMaxStack) is a violation, a string/error diagnostic a refusal. Held on the programs produced.",
+    "Trusted: classification by the runtime.Error interface; programs are type-checked by packages.Load before analysis.",
+    "DESIGN.md section 5 / C18",
+)
+
 NOT_YET = "check not built yet (work in progress, see DESIGN.md section 5 for the planned monitor)"
 NOT_APPLICABLE = {}
 
